@@ -1,12 +1,13 @@
 (* C27 - Strings keep their content through escaping and quoting.  Theorems only.
-   PARTIAL: the positive theorems cover every literal of the escape-free class
-   (any length, any code points except backslash, hash, quotes, line breaks and
-   private-use characters); for literals with escapes the statement is false in
-   the ways witnessed below, and the model is tied to rsass by correspondence only.
-   Missing for a full result: a proof that decode (display (store lit)) = decode lit
-   outside the refuted classes, single-quoted literals and interpolation. *)
+   PARTIAL: the positive theorems cover (a) every escape-free literal and (b) every
+   double-quoted literal built from the well-behaved pieces described below; outside
+   those classes the statement is false in the ways witnessed at the end, and the model
+   (double- and single-quoted readers) is tied to rsass by correspondence.
+   Missing for a full result: hex escapes without a terminating space, escapes of
+   control characters / `-` / space (stored escaped), character escapes other than the
+   quote and the backslash, the same proof for the single-quoted reader, interpolation. *)
 From Coq Require Import String List NArith ZArith Bool.
-From RV Require Import Base.Text Base.ListX Model.CssStr Model.StrEsc Spec.CssEsc Run.C27 Proofs.C27.
+From RV Require Import Base.Text Base.ListX Model.CssStr Model.StrEsc Spec.CssEsc Run.C27 Proofs.C27 Proofs.C27Emit.
 Import ListNotations.
 Local Open Scope N_scope.
 Local Open Scope list_scope.
@@ -44,6 +45,71 @@ Print Assumptions C27_plain_quote_unquote_partial.
 Theorem C27_decode_plain : forall l, contains 92 l = false -> css_decode l = l.
 Proof. exact decode_plain. Qed.
 Print Assumptions C27_decode_plain.
+
+(* ---- literals with escapes of the well-behaved kinds (Proofs/C27Emit.v) ----
+   CLASS (`wf ps`): the body of a double-quoted literal is `render ps` for a list of pieces, each one of
+     - a non-empty run of plain characters (no backslash, hash, quotes, LF/CR/FF, private use), no two runs adjacent,
+     - a raw apostrophe,  - an escaped double quote,  - an escaped backslash,
+     - a hex escape: backslash, 1-6 hex digits, ONE terminating space, of a code point that is valid, not NUL, not a
+       control character, not `-`, backslash or space, and not private use (so: printable ASCII incl. both quote
+       characters, and every non-ASCII scalar value outside U+0080-U+009F and the private-use areas).
+   For every such literal, of any length: *)
+
+(* C27_emit on the class: the printed token is a well-delimited string token that denotes the literal's string *)
+Theorem C27_emit_partial : forall ps, wf ps = true ->
+  exists lv, literal_value (render ps) = Some lv /\
+             token_denotes (css_display lv) (css_decode (render ps)) = true.
+Proof. exact emit_pieces_token. Qed.
+Print Assumptions C27_emit_partial.
+
+(* the same with the pieces of the argument made explicit: what is stored, and what both texts decode to *)
+Theorem C27_emit_decode_partial : forall ps, wf ps = true ->
+  exists lv b, literal_value (render ps) = Some lv /\ s_val lv = stored ps /\
+               token_body (css_display lv) = Some b /\
+               css_decode b = css_decode (render ps) /\ css_decode (render ps) = denot ps.
+Proof. exact emit_pieces. Qed.
+Print Assumptions C27_emit_decode_partial.
+
+(* str-length on the class exceeds the number of denoted code points by exactly one per escaped backslash
+   (F26a, quantified: it is right iff the literal has no escaped backslash) *)
+Theorem C27_length_partial : forall ps, wf ps = true ->
+  exists lv, literal_value (render ps) = Some lv /\
+             length (s_val lv) = (length (css_decode (render ps)) + count_bs ps)%nat.
+Proof. exact length_pieces. Qed.
+Print Assumptions C27_length_partial.
+
+(* unquote yields exactly the denoted string, and quote (unquote s) is s *)
+Theorem C27_quote_unquote_partial : forall ps, wf ps = true ->
+  exists lv, literal_value (render ps) = Some lv /\
+             css_unquote lv = Some (css_decode (render ps)) /\
+             pref_dquotes (css_quote (mkStr (css_decode (render ps)) QNone)) = lv.
+Proof. exact quote_unquote_pieces. Qed.
+Print Assumptions C27_quote_unquote_partial.
+
+(* quote (unquote s) = s for ALL stored strings of the class on which unquote is injective:
+   CLASS (`forallb wfu us`): the stored text is a sequence of units, each a single character other than a
+   backslash or a pair of backslashes (i.e. every backslash of the stored text is an escaped backslash) *)
+Theorem C27_quote_unquote_units_partial : forall us q, forallb wfu us = true -> q <> QNone ->
+  css_unquote (mkStr (utexts us) q) = Some (udens us) /\
+  pref_dquotes (css_quote (mkStr (udens us) QNone)) = pref_dquotes (mkStr (utexts us) QDouble).
+Proof. exact quote_unquote_units. Qed.
+Print Assumptions C27_quote_unquote_units_partial.
+
+Theorem C27_unquote_injective_partial : forall us us',
+  forallb wfu us = true -> forallb wfu us' = true -> udens us = udens us' -> utexts us = utexts us'.
+Proof. exact unquote_injective. Qed.
+Print Assumptions C27_unquote_injective_partial.
+
+(* the single-quoted reader (sass_string_sq) is modelled and tied by correspondence; proved only for
+   escape-free literals: same value as the double-quoted literal with that body *)
+Theorem C27_sq_plain_partial : forall l, plain l = true ->
+  literal_value_sq l = Some (mkStr l QDouble) /\ literal_value_sq l = literal_value l.
+Proof. exact literal_sq_plain. Qed.
+Print Assumptions C27_sq_plain_partial.
+
+Example C27_pieces_sat :
+  wf [PRun [97; 233]; PHex [52; 49]; PEscQuote; PApos; PEscBs; PHex [49; 102; 54; 48; 48]; PRun [32; 122]] = true.
+Proof. vm_compute. reflexivity. Qed.
 
 (* F26a: "\10x" has two code points, str-length reports the four stored characters *)
 Theorem C27_refuted_length :
